@@ -991,9 +991,8 @@ class XandikosBackend(webdav.Backend):
         self._user_principals.add(posixpath.normpath(path))
 
     def create_collection(self, relpath):
-        relpath = posixpath.normpath(relpath)
-        if not relpath.startswith("/"):
-            raise ValueError("relpath %r should start with /")
+        # resolve "." and ".." segments (as get_resource does), anchored at the root
+        relpath = posixpath.normpath(posixpath.join("/", relpath))
         p = self._map_to_file_path(relpath)
         return Collection(self, relpath, TreeGitStore.create(p))
 
